@@ -48,6 +48,8 @@ class SimFS:
         self.calls = []
         self.fired = []
         self.delivered = None  # text actually handed to the program by read()
+        self.opened_ids = []  # (st_dev, st_ino) of every file under the root the program opened
+        self.delivered_raw = False  # delivered through os.read(): bytes of a text file, newlines untranslated
 
     # -- bookkeeping
     def _mine(self, path):
@@ -109,18 +111,77 @@ class SimFS:
                 with self._orig['io.open'](file, 'w', encoding='utf-8') as w:
                     w.write(f['text'])
             real = self._orig['io.open'](file, *a, **kw)
+            try:
+                st = os.fstat(real.fileno())
+                self.opened_ids.append((st.st_dev, st.st_ino))
+            except (OSError, ValueError, AttributeError):
+                pass
             return _FileProxy(self, real, os.fspath(file))
         return self._orig['io.open'](file, *a, **kw)
+
+    # -- descriptor-level access (os.open / os.read / os.close): same steps, same faults
+    def _os_open(self, path, flags, *a, **kw):
+        if isinstance(path, int) or not self._mine(path) or (flags & (os.O_WRONLY | os.O_RDWR)):
+            return self._orig['os.open'](path, flags, *a, **kw)
+        f = self._step('open', path)
+        if f and f['kind'] == 'errno':
+            raise _oserror(f['errno'], os.fspath(path))
+        if f and f['kind'] == 'replace':
+            with self._orig['io.open'](path, 'w', encoding='utf-8') as w:
+                w.write(f['text'])
+        fd = self._orig['os.open'](path, flags, *a, **kw)
+        try:
+            st = os.fstat(fd)
+            self.opened_ids.append((st.st_dev, st.st_ino))
+        except OSError:
+            pass
+        self._fds[fd] = {'path': os.fspath(path), 'left': None}
+        return fd
+
+    def _os_read(self, fd, n):
+        ent = self._fds.get(fd)
+        if ent is None:
+            return self._orig['os.read'](fd, n)
+        f = self._step('read', ent['path'])
+        if f and f['kind'] == 'errno':
+            raise _oserror(f['errno'])
+        if f and f['kind'] == 'truncate' and ent['left'] is None:
+            ent['left'] = f['n']  # the file ends after n more bytes
+        data = self._orig['os.read'](fd, n)
+        if ent['left'] is not None:
+            data = data[:ent['left']]
+            ent['left'] -= len(data)
+        if data:
+            prev = self.delivered
+            self.delivered = data if not isinstance(prev, bytes) else prev + data
+            self.delivered_raw = True
+        elif self.delivered is None:
+            self.delivered = b''
+            self.delivered_raw = True
+        return data
+
+    def _os_close(self, fd):
+        ent = self._fds.pop(fd, None)
+        if ent is None:
+            return self._orig['os.close'](fd)
+        f = self._step('close', ent['path'])
+        self._orig['os.close'](fd)
+        if f and f['kind'] == 'errno':
+            raise _oserror(f['errno'])
 
     def __enter__(self):
         import builtins
         self._orig = {'os.lstat': os.lstat, 'os.stat': os.stat, 'os.readlink': os.readlink, 'io.open': io.open,
-                      'builtins.open': builtins.open}
+                      'builtins.open': builtins.open, 'os.open': os.open, 'os.read': os.read, 'os.close': os.close}
+        self._fds = {}
         os.lstat = self._lstat
         os.stat = self._stat
         os.readlink = self._readlink
         io.open = self._open
         builtins.open = self._open
+        os.open = self._os_open
+        os.read = self._os_read
+        os.close = self._os_close
         return self
 
     def __exit__(self, *exc):
@@ -130,6 +191,9 @@ class SimFS:
         os.readlink = self._orig['os.readlink']
         io.open = self._orig['io.open']
         builtins.open = self._orig['builtins.open']
+        os.open = self._orig['os.open']
+        os.read = self._orig['os.read']
+        os.close = self._orig['os.close']
         return False
 
 
@@ -178,6 +242,9 @@ class _FileProxy:
 ###############################################################################
 
 
+_OS_WRITE = os.write
+
+
 class FaultyRaw(io.RawIOBase):
     """fault: None or {'offset': N, 'errno': 'ENOSPC', 'persistent': bool, 'short': bool}
 
@@ -214,7 +281,7 @@ class FaultyRaw(io.RawIOBase):
             room = self.fault['offset'] - self.accepted
             if room > 0 and len(b) > room and self.fault.get('short', False):
                 # short write: accept what fits; the caller's next write hits the fault
-                os.write(self._fd, b[:room])
+                _OS_WRITE(self._fd, b[:room])
                 self.accepted += room
                 self.short_accepts += 1
                 return room
@@ -223,7 +290,7 @@ class FaultyRaw(io.RawIOBase):
                 if not self.fault.get('persistent', True):
                     self._armed = False
                 raise _oserror(self.fault['errno'])
-        os.write(self._fd, b)
+        _OS_WRITE(self._fd, b)
         self.accepted += len(b)
         return len(b)
 
@@ -280,6 +347,14 @@ def run_process(main, argv, out_raw, err_raw, out_buffer=8192, err_line_buffered
     new_err = make_stream(err_raw, buffer_size=1, line_buffering=err_line_buffered)
     old = (sys.stdout, sys.stderr)
     sys.stdout, sys.stderr = new_out, new_err
+
+    def device_write(fd, data):
+        # a program that writes to the descriptor of a standard stream writes to the same device
+        for raw in (out_raw, err_raw):
+            if fd == raw._fd and isinstance(fd, int):
+                return raw.write(data)
+        return _OS_WRITE(fd, data)
+    os.write = device_write
     try:
         try:
             if wrapper is not None:
@@ -309,6 +384,7 @@ def run_process(main, argv, out_raw, err_raw, out_buffer=8192, err_line_buffered
             status = 120
     finally:
         sys.stdout, sys.stderr = old
+        os.write = _OS_WRITE
     res.status = status
     try:
         out_raw.data.decode('utf-8')
